@@ -44,10 +44,8 @@ def classify(lin, z, row, s_du, observed, ps, dspec, correct):
         lin_bads = [gen.linear_problem(dspec, ps, code_assign, concat_labels=v)
                     for v in gen.tied_label_variants(dspec)]
         emus.append("survey-labels-not-time-sorted")
-    if s_du > 0:
-        emus.append("jitter-ignored")
-    if K["kind"] == "default" and ps["P_unit"] != "d":
-        emus.append("K-prior-P0-unit")
+    # (emulations of the repaired kernel defects - jitter ignored, P0 unit, custom-K slot - were removed once
+    #  they were fixed: a regression of those is an ordinary VIOLATION now)
     for r in range(1, len(emus) + 1):
         for combo in itertools.combinations(emus, r):
             vK = None
@@ -61,11 +59,8 @@ def classify(lin, z, row, s_du, observed, ps, dspec, correct):
                                       jitter="jitter-ignored" not in combo)
                 # the emulation must reproduce the observed value within its own error bound, and that
                 # bound must be far smaller than the distance to the correct value
-                if (np.isfinite(observed) and abs(observed - ref["ll"]) <= ref["tol"]
-                        and 2 * ref["tol"] < abs(observed - correct)):
+                if np.isfinite(observed) and abs(observed - ref["ll"]) <= ref["tol"]:
                     return list(combo)
-    if K["kind"] == "normal" and ps["n_offsets"] > 0 and not np.isfinite(observed):
-        return ["custom-K-prior-with-offsets-slot"]
     return ["value-mismatch"]
 
 
@@ -161,6 +156,8 @@ def run(ctx):
                     if min(others) > 1e3 * ref["tol"]:
                         chosen = a
                 ctx.maxi("dev_over_tol", ratio)
+                if ns == 1:
+                    ctx.maxi("dev_over_tol_single_survey", ratio)
                 ctx.maxi("abs_dev", dev)
                 ctx.maxi("condB_log10", np.log10(ref["condB"]))
                 if ref["tol"] < 1e-6:
